@@ -784,7 +784,26 @@ func (x *Exec) canInline(f *ssa.Function, depth int) bool {
 }
 
 // resolveCallee finds the static callee (if any) and its contract (if any).
+// specInScope: a contract marked `scoped` does not exist while a property it is not tagged with is
+// checked (its function is inlined or treated as unknown like any un-contracted one), so that adding
+// it cannot perturb the proofs of other properties. Unmarked contracts apply everywhere (most carry
+// frames or assumptions that several properties rely on).
+func (x *Exec) specInScope(sp *FuncSpec) bool {
+	if sp == nil || sp.Ext || len(sp.Props) == 0 || x.propFilter == "" || !sp.Scoped {
+		return true
+	}
+	return hasProp(sp.Props, x.propFilter)
+}
+
 func (x *Exec) resolveCallee(fr *Frame, c *ssa.CallCommon) (*ssa.Function, *FuncSpec, string) {
+	f, sp, key := x.resolveCallee0(fr, c)
+	if sp != nil && !x.specInScope(sp) {
+		sp = nil
+	}
+	return f, sp, key
+}
+
+func (x *Exec) resolveCallee0(fr *Frame, c *ssa.CallCommon) (*ssa.Function, *FuncSpec, string) {
 	if c.IsInvoke() {
 		key := methodKey(c.Method)
 		// known dynamic type?
@@ -947,7 +966,7 @@ func (x *Exec) atCallOrdinary(fr *Frame, st *State, key string) {
 			continue
 		}
 		if strings.HasSuffix(key, ac.Callee) || strings.HasSuffix(key, "."+ac.Callee) {
-			if ac.Assert != nil {
+			if ac.Assert != nil && x.clauseActive(*ac.Assert) {
 				t, err := x.evalBool(fr, st, ac.Assert.E)
 				if err != nil && strings.Contains(err.Error(), "unknown identifier") && x.isLocalName(fr, err.Error()) {
 					// a local of the clause does not exist yet at this call: the clause does not apply
@@ -967,7 +986,7 @@ func (x *Exec) atCallOrdinary(fr *Frame, st *State, key string) {
 					x.assumeIn(st, t)
 				}
 			}
-			if ac.Assume != nil {
+			if ac.Assume != nil && x.clauseActive(*ac.Assume) {
 				if t, err := x.evalBool(fr, st, ac.Assume.E); err == nil {
 					x.assumeIn(st, t)
 					x.assume1("assumed at call " + ac.Callee + " in " + shortFn(fr.fn) + ": " + ac.Assume.Src)
